@@ -3,10 +3,10 @@
 meta.json: which property it breaks, what it needs to manifest, what was run (confirmation + checks)."""
 import glob, json, os, re, shutil
 rows = []
-for d in sorted(glob.glob('/tmp/mut_C*/m*')):
+for d in sorted(glob.glob('/tmp/mut_C*/m*') + glob.glob('/tmp/mutB_C*/m*')):
     meta = json.load(open(os.path.join(d, 'meta.json')))
     prop = meta['property']
-    name = '%s-%s' % (prop, os.path.basename(d))
+    name = '%s-%s' % (prop, os.path.basename(d) if '/mut_' in d else os.path.basename(d).replace('m', 'b'))
     conf = open(os.path.join(d, 'confirm.txt')).read() if os.path.exists(os.path.join(d, 'confirm.txt')) else ''
     if 'CONFIRMED' not in conf or 'NOT-CONFIRMED' in conf:
         print('skip (not confirmed):', d); continue
@@ -26,7 +26,7 @@ for d in sorted(glob.glob('/tmp/mut_C*/m*')):
         checks[p] = {'cmd': './check %s --tier quick (against a worktree with the patch applied)' % p,
                      'detected': bool(viol), 'violations': len(viol), 'failed_harnesses': failed[:8], 'summary': summ[-1] if summ else ''}
     m2 = {'property': prop, 'summary': meta.get('summary'), 'needs': meta.get('needs'), 'files_changed': meta.get('files_changed'),
-          'demo_cmd': re.sub(r'/tmp/mut_C\d+/m\d+', '/verif/seeded/' + name, meta.get('demo_cmd', '')),
+          'demo_cmd': re.sub(r'/tmp/mutB?_C\d+/m\d+', '/verif/seeded/' + name, meta.get('demo_cmd', '')),
           'origin': 'independent sub-agent given only the property text and a scratch worktree',
           'confirmed': {'how': 'confirm_mut.sh: scratch worktree of /repo HEAD; patch applies; cargo test --workspace --offline passes (69 incl. doctests); demo fails with the patch and passes without it',
                         'result': conf.strip().splitlines()[-2:] if conf else []},
